@@ -362,7 +362,9 @@ def random_case(rng):
                 new = rng.choice([p for p in ("char", "short", "int", "long", "unsigned char", "uint16_t", "uint32_t", "uint64_t")])
                 beh.append({"a": "MutateField", "kind": s["kind"], "tag": s["tag"], "how": "type", "i": i + 1, "arg": new})
         elif how == "drop" and len(idxs) >= 2:
-            beh.append({"a": "MutateField", "kind": s["kind"], "tag": s["tag"], "how": "drop", "i": rng.choice(idxs) + 1, "arg": "char"})
+            cand = [i for i in idxs if not mg.sus_of(ma.resolve(s["fs"][i][1], td))]
+            if cand:
+                beh.append({"a": "MutateField", "kind": s["kind"], "tag": s["tag"], "how": "drop", "i": rng.choice(cand) + 1, "arg": "char"})
         elif how == "swap" and len(idxs) >= 2:
             beh.append({"a": "MutateField", "kind": s["kind"], "tag": s["tag"], "how": "swap", "i": rng.choice(idxs[:-1]) + 1, "arg": "char"})
         if rng.random() < 0.4:
